@@ -8,7 +8,7 @@ E(name, cls, in) == [name |-> name, cls |-> cls, in |-> in]
 Trees == << << E("a.xml", "xml", 0), E("b.xml", "xml", 0) >>,
             << E("d", "dir", 0), E("x.xml", "xml", 1), E("y.json", "json", 1), E("sub", "dir", 1), E("z.html", "html", 4) >>,
             << E("a.xml", "xml", 0), E("bad.xml", "xmlbad", 0), E("c.txt", "txtjson", 0), E("l.xml", "dangling", 0), E("b.xml", "xml", 0) >>,
-            << E("ent.xml", "xmlent", 0), E("a.xml", "xml", 0), E("noext", "noext", 0) >>,
+            << E("ent.xml", "xmlent", 0), E("a.xml", "xml", 0), E("noext", "noext", 0), E("dump.zzq9x", "noext", 0) >>,
             << E("j.json", "json", 0), E("h.html", "html", 0), E("d", "dir", 0), E("k.xml", "xml", 3) >>,
             << E("data.txt", "txtjson", 0) >>,
             << E("first.xml", "xml", 0), E("no-such.xml", "missing", 0), E("second.xml", "xml", 0), E("gone", "missing", 0), E("third.json", "json", 0) >>,
